@@ -333,3 +333,60 @@ Proof.
   exists (map (fun q => front_push live (snd q) (fst q)) pre), (map (fun q => front_push live (snd q) (fst q)) post).
   rewrite front_seq_pointwise, map_app. cbn [map]. rewrite !map_length. auto.
 Qed.
+
+(* ---- the executable monitor is exact: it accepts nothing the spec forbids ---- *)
+Lemma fronts_of_cons_incl o r c f : In f (fronts_of r c) -> In f (fronts_of (o :: r) c).
+Proof.
+  intro I. destruct o as [c'|c' f' i|c' f' i|c'|c'|c'|live closing0 l|df dids|slive sps]; simpl; try exact I.
+  destruct (Z.eqb c c'); [right|]; exact I.
+Qed.
+
+Lemma mstep_listed c f m o r g0 :
+  mstep c f m o = Some (Some g0) -> (exists g1, m = Some (Some g1)) \/ In f (fronts_of (o :: r) c).
+Proof.
+  destruct o as [c'|c' f' i|c' f' i|c'|c'|c'|live closing0 l|df dids|slive sps]; simpl; intro E;
+    try (left; eexists; exact E).
+  - destruct (Z.eqb c c'); [|left; eexists; exact E].
+    destruct m as [[g|]|]; simpl in E; try discriminate. left; eexists; reflexivity.
+  - destruct (Z.eqb c c'); [|left; eexists; exact E].
+    destruct (Z.eqb_spec f f') as [->|N]; [right; left; reflexivity|].
+    destruct m as [[g|]|]; simpl in E; try discriminate. left; eexists; reflexivity.
+  - destruct (Z.eqb c c' && Z.eqb f f'); [|left; eexists; exact E].
+    destruct m as [[g|]|]; try discriminate. left; eexists; reflexivity.
+  - destruct (Z.eqb c c'); [discriminate | left; eexists; exact E].
+Qed.
+
+Lemma fold_listed c f h : forall m g,
+  fold_left (mstep c f) h m = Some (Some g) -> (exists g0, m = Some (Some g0)) \/ In f (fronts_of h c).
+Proof.
+  induction h as [|o r IH]; simpl; intros m g E; [left; eexists; exact E|].
+  destruct (IH _ _ E) as [[g0 E0]|I].
+  - apply (mstep_listed c f m o r g0) in E0. exact E0.
+  - right. apply (fronts_of_cons_incl o r c f I).
+Qed.
+
+Lemma members_listed h c f g : members h c f = Some (Some g) -> In f (fronts_of h c).
+Proof.
+  intro E. destruct (fold_listed c f h None g E) as [[g0 E0]|I]; [discriminate | exact I].
+Qed.
+
+Lemma push_spec_b_complete h c b : push_spec_b h c b = true -> push_spec h c b.
+Proof.
+  unfold push_spec, push_spec_b. destruct (exists_after h c).
+  - destruct b as [| | |l| |]; try discriminate.
+    rewrite !andb_true_iff. intros [[ND A] B].
+    apply nodupb_NoDup in ND. rewrite forallb_forall in A, B.
+    assert (A' : forall f g, In (f, g) l -> members h c f = Some (Some g)).
+    { intros f g I. specialize (A _ I). simpl in A.
+      destruct (members h c f) as [[g'|]|]; try discriminate.
+      apply zlist_eqb_spec in A. subst. reflexivity. }
+    exists l. split; [reflexivity|]. split; [exact ND|].
+    intros f g. split; [apply A'|].
+    intro E. pose proof (members_listed _ _ _ _ E) as I. specialize (B _ I). rewrite E in B.
+    apply zmem_In in B. apply in_map_iff in B. destruct B as [[f' g'] [Ef I']]. simpl in Ef. subst f'.
+    pose proof (A' _ _ I') as E'. rewrite E in E'. inversion E'. subst. exact I'.
+  - destruct b; try discriminate. reflexivity.
+Qed.
+
+Lemma push_spec_b_exact h c b : push_spec_b h c b = true <-> push_spec h c b.
+Proof. split; [apply push_spec_b_complete | apply push_spec_b_sound]. Qed.
